@@ -15,6 +15,24 @@ func main() {
 		vod = args[1]
 		args = args[2:]
 	}
+	if len(args) > 0 && args[0] == "-gen" { // serve the generated catalogue
+		args = args[1:]
+		var layouts []lib.GenAsset
+		for _, l := range lib.GenCatalogue() {
+			layouts = append(layouts, l.Asset)
+		}
+		root, cleanup, err := lib.ScratchDir("probe")
+		if err != nil {
+			panic(err)
+		}
+		defer cleanup()
+		for _, ga := range layouts {
+			if err := lib.WriteAsset(root, ga); err != nil {
+				panic(err)
+			}
+		}
+		vod = root
+	}
 	ls, err := lib.NewLivesim(vod, nil)
 	if err != nil {
 		panic(err)
